@@ -148,7 +148,7 @@ def template : Ann → M Val
   | .array inner => do
     let v ← template inner
     pure (.array (.inst v) none none)
-  | .bareArray => pure (.array .typeVar none none)
+  | .bareArray => throw .T          -- a bare `Array` annotation is rejected (it would record the type variable "T")
 
 def Val.withChild (v : Val) (c : Id) : Val :=
   match v with
